@@ -203,18 +203,21 @@ def parseDurLoop : Nat → List Char → Int → Option Int
             else if u = 'w' then parseDurLoop fuel rest' (add nsWeek)
             else none
 
+/-- `ParseDuration` after the optional sign. -/
+def parseDurationAbs (a : Str) (isNeg : Bool) : Option Int :=
+  match parseDurLoop (a.length + 1) a 0 with
+  | none => none
+  | some d =>
+    if d < 0 && !isNeg then none
+    else some (if isNeg then wrap64 (-d) else d)
+
 /-- `ParseDuration(s)`; `none` for every error return. -/
 def parseDuration (s : Str) : Option Int :=
   if (s.map utf8Len).sum < 2 then none
   else
-    let (isNeg, a) := match s with
-      | '-' :: r => (true, r)
-      | _ => (false, s)
-    match parseDurLoop (a.length + 1) a 0 with
-    | none => none
-    | some d =>
-      if d < 0 && !isNeg then none
-      else some (if isNeg then wrap64 (-d) else d)
+    match s with
+    | '-' :: r => parseDurationAbs r true
+    | _ => parseDurationAbs s false
 
 /-- `FormatDuration(d)` for `d ≥ 0` (after the ns fallback fix). -/
 def formatDurAbs (d : Nat) : Str :=
